@@ -97,7 +97,20 @@ func (vm *VM) Run(program *Program, env interface{}) (out interface{}, err error
 		switch op {
 
 		case OpPush:
-			vm.push(vm.constant())
+			// A sequence constant (a folded range or array literal) is
+			// handed out as a copy: the value may be changed in place by an
+			// environment function or by the caller of Run, and the
+			// program is shared by all runs.
+			switch c := vm.constant().(type) {
+			case []int:
+				vm.push(append(make([]int, 0, len(c)), c...))
+			case []string:
+				vm.push(append(make([]string, 0, len(c)), c...))
+			case []interface{}:
+				vm.push(append(make([]interface{}, 0, len(c)), c...))
+			default:
+				vm.push(c)
+			}
 
 		case OpPop:
 			vm.pop()
